@@ -366,10 +366,22 @@ class Gen:
         f = r.choice(['take', 'drop', 'take-while', 'drop-while', 'take-until', 'drop-until', 'filter', 'count', 'find-index',
                       'map', 'reduce', 'partition', 'interleave', 'interpose', 'range', 'distinct', 'frequencies', 'merge',
                       'zipcoll', 'min', 'max', 'min-of', 'max-of', 'sum', 'product', 'reverse', 'reverse!', 'flatten',
-                      'take', 'drop', 'partition', 'range', 'find', 'index-of', 'reduce2', 'map3'])
+                      'take', 'drop', 'partition', 'range', 'find', 'index-of', 'reduce2', 'map3',
+                      'keep', 'mapcat', 'count2', 'group-by', 'interpose', 'interleave', 'frequencies'])
         kind = r.choice(['(', '['])
         if f == 'find':
             return (f, [F(r.choice(['even', 'odd', 'pos', 'neg?', 'lt3', 'true', 'false'])), (kind, self.ints())])
+        if f in ('keep', 'mapcat'):
+            one = {'keep': ['sqeven', 'posid', 'id', 'inc'], 'mapcat': ['pairx', 'rep3', 'none']}[f]
+            two = {'keep': ['ltsum', 'add', 'snd'], 'mapcat': ['tup', 'tupsum', 'tup3']}[f]
+            if r.chance(1, 2):
+                return (f, [F(r.choice(one)), (kind, self.ints(r.below(8), -3, 9))])
+            return (f, [F(r.choice(two)), (kind, self.ints(r.below(7), -3, 9)), (r.choice(['(', '[']), self.ints(r.below(7), -3, 9))])
+        if f == 'count2':
+            return ('count', [F(r.choice(['lt', 'gt', 'le', 'ge', 'ne', 'mod4lt', 'true', 'false'])), (kind, self.ints(r.below(7), -3, 9)),
+                              (r.choice(['(', '[']), self.ints(r.below(7), -3, 9))])
+        if f == 'group-by':
+            return (f, [F(r.choice(['mod4', 'abs', 'neg', 'id', 'sq'])), (kind, self.ints(r.below(10), -4, 6))])
         if f == 'index-of':
             xs = self.ints(r.below(8), -3, 3)
             return (f, [I(r.range(-3, 3)), (kind, xs)])
